@@ -16,9 +16,9 @@ func init() {
 			"(d) a getter error, a non-soft verification failure of an intermediate, and a failed re-verification at distance ≤ 1 all return a non-nil error; " +
 			"(e) ranking structure: every path back to the loop head either halves the distance or re-bases it on the promoted intermediate (followed by the ≤ 1 exit test); the candidate height is subject height + distance/2; one getter request per iteration.",
 		NotDecided: []string{
-			"the iteration bound for all trust predicates: termination needs the runtime facts that the getter returns the height it was asked for and that verifying an already-known height fails hard; only the ranking structure is checked",
+			"the iteration bound for all trust predicates: termination needs the runtime fact that verifying an already-known height fails hard; the ranking structure is checked, and that the answer's height is the requested one (F25)",
 			"the 'if' direction of the iff: that an existing verifiable path is always found",
-			"wrap-freedom of the two height subtractions when a trusted peer returns a header of another height than requested (outside the property's omission fault model)",
+			"wrap-freedom of the initial distance newHead.Height() - subjHead.Height() is left to the caller's order (verify is only reached for a head above the subjective head); the re-based distance is wrap-free because the promoted answer sits at the requested height, at most the new head's",
 		},
 		Technique: "dominance facts with errors.As refinement, loop-carried value (phi) edge classification, assumption pruning for the refusal cases",
 		Trusted:   "go/types+go/ssa; C01 for the meaning of Verify; purity of header observers",
@@ -164,6 +164,7 @@ func runC15(c *an.Ctx) {
 		c.Check(t.Of(sc.Call.Args[2]) == cand && fs.Has(an.EQ(vcT, "nil")) && fs.Has(an.EQ(gErr, "nil")), "C15.c", "promote-only-verified",
 			"only an intermediate that passed verification against the current subject is made the sync target", bif, sc, "", fs)
 	}
+	checkAnswerHeightBound(c, bif, getC, vCand, cand, scs)
 	c.Check(t.Of(vNew.Call.Args[0]) == cand && ff.AtInstr(vNew).Has(an.EQ(vcT, "nil")), "C15.b", "reverify-against-promoted", "the new head is re-verified against the intermediate that was just promoted", bif, vNew, "", ff.AtInstr(vNew))
 
 	// --- C15.b / C15.d returns
